@@ -402,6 +402,11 @@ func (eng *Engine) runTop(c *FnCtx, fn *ssa.Function, fs *FuncSpec) {
 			panic(specErr("clause at %s matches no call site of %s (callee keys are package-qualified, e.g. (*lexer.PeekingLexer).Next)", k, fs.Key))
 		}
 	}
+	for _, a := range fs.AfterLoop {
+		if a.Ordinal >= 0 && !c.pass1 && !c.hookHits[fmt.Sprintf("after loop %d", a.Ordinal)] {
+			panic(specErr("clause \"after loop %d\" found no exit block of that loop in %s", a.Ordinal, fs.Key))
+		}
+	}
 	for _, l := range fs.Lets {
 		if k := fmt.Sprintf("call %s#%d", l.Callee, l.Ordinal); !c.hookHits[k] {
 			panic(specErr("let %s: %s matches no call site of %s", l.Name, k, fs.Key))
